@@ -288,11 +288,32 @@ pub fn judge_table(c: &Case) -> Obs {
     }
     let err = String::from_utf8_lossy(&lacebox::strip_sgr(&out.stderr)).to_string();
     let mut rows: Vec<(u16, String, String)> = Vec::new();
+    // (a statement written across source lines makes a text cell of several lines: the cell goes
+    // on until the line that ends with the column separator)
+    let mut open_row: Option<(u16, String, String)> = None;
     for l in err.lines() {
+        if let Some((a, label, mut text)) = open_row.take() {
+            text.push('\n');
+            match l.strip_suffix('│') {
+                Some(rest) => {
+                    text.push_str(rest);
+                    rows.push((a, label, text));
+                }
+                None => {
+                    text.push_str(l);
+                    open_row = Some((a, label, text));
+                }
+            }
+            continue;
+        }
         let cells: Vec<&str> = l.split('│').collect();
         if cells.len() >= 4 && cells[1].trim().starts_with("0x") {
             if let Ok(a) = u16::from_str_radix(cells[1].trim().trim_start_matches("0x"), 16) {
-                rows.push((a, cells[2].to_string(), cells[3].to_string()));
+                if cells.len() >= 5 {
+                    rows.push((a, cells[2].to_string(), cells[3].to_string()));
+                } else {
+                    open_row = Some((a, cells[2].to_string(), cells[3].to_string()));
+                }
             }
         }
     }
@@ -346,7 +367,7 @@ impl Prop for C17 {
         "C17"
     }
     fn rule(&self) -> &'static str {
-        "RefAsm programs over the whole instruction / trap / directive set (operand-less instructions after operand-ful ones, .stringz / .blkw / .fill, labels with and without colon and on their own line, commas / tabs / comments between and after operands, multi-byte characters in comments and strings, .break and .orig, origins on both sides of 0x8000, CRLF) rendered under three layout styles. \
+        "RefAsm programs over the whole instruction / trap / directive set (operand-less instructions after operand-ful ones, .stringz / .blkw / .fill, labels with and without colon and on their own line, commas / tabs / comments between and after operands, multi-byte characters in comments and strings, .break and .orig, origins on both sides of 0x8000, CRLF) rendered under four layout styles (the fourth writes statements across source lines). \
          Oracle: for every address in [origin-2, origin+n+2] minimal-mode `assembly <a>` prints exactly the renderer's text of the statement that produced that word (mnemonic/directive through last operand) and nothing for addresses without a statement; for up to 10 labels `goto L`, `goto L+-1`, to both ends of the program and one beyond, and a random signed-16-bit offset, set PC to address(L)+-k iff that is in user space (else PC stays); `print L` shows the word at L. The non-minimal breakpoint table (`.break` directives plus up to 12 added breakpoints) lists exactly the breakpoint addresses in order, and per row one of the labels at that address (or nothing) and the statement text, cut with an ellipsis where longer than the column. \
          Non-trivial: the program has a multi-word directive, an operand-less instruction following an operand-ful one, and a non-default origin or multi-byte text. Distinct = hash(rendered source, flag)."
     }
